@@ -120,6 +120,9 @@ impl Eq for St {}
 pub struct Collected {
     /// signature -> (count, shortest history, detail)
     pub issues: BTreeMap<String, (u64, Vec<u16>, String)>,
+    /// a few more histories per signature (confirmation tries them in turn: with hidden process- or thread-wide state in
+    /// the subject, the shortest one may owe its failure to an unrelated earlier evaluation and not repeat)
+    pub more: BTreeMap<String, Vec<Vec<u16>>>,
 }
 
 pub struct HistModel {
@@ -213,15 +216,16 @@ impl HistModel {
         }
         Some(p)
     }
+    /// replay the WHOLE history, every instance's calls interleaved in their original order, on fresh parsers, and
+    /// return instance i's parser (state leaking between instances through process- or thread-wide storage in the
+    /// subject shows up as a difference from the parser rebuilt from instance i's caches alone)
     pub fn replay(&self, i: usize, hist: &[u16]) -> NetflowParser {
-        let mut p = self.fresh(i);
+        let mut ps: Vec<NetflowParser> = (0..self.ninst).map(|j| self.fresh(j)).collect();
         for a in hist {
             let a = &self.actions[*a as usize];
-            if a.inst == i {
-                p.parse_bytes(&a.bytes);
-            }
+            ps[a.inst].parse_bytes(&a.bytes);
         }
-        p
+        ps.swap_remove(i)
     }
     fn record(&self, hist: &[u16], issues: Vec<Issue>) {
         if issues.is_empty() {
@@ -229,6 +233,12 @@ impl HistModel {
         }
         let mut c = self.collected.lock().unwrap();
         for i in issues {
+            {
+                let m = c.more.entry(i.sig.clone()).or_default();
+                if m.len() < 12 {
+                    m.push(hist.to_vec());
+                }
+            }
             let e = c.issues.entry(i.sig).or_insert((0, hist.to_vec(), i.detail.clone()));
             e.0 += 1;
             if hist.len() < e.1.len() || (hist.len() == e.1.len() && hist < &e.1[..]) {
@@ -336,7 +346,10 @@ impl HistModel {
             }
         }
         // (5) a buffer of several packets behaves like its packets delivered one per call
-        if let Some(parts) = &a.parts {
+        // (only when every packet of the buffer has an allowed version: by C12 a disallowed packet legitimately hides
+        // everything behind it in the same buffer, but not in later calls)
+        let all_parts_allowed = a.parts.as_ref().map(|ps| ps.iter().all(|p| p.len() >= 2 && self.is_allowed(i, r16(p, 0)))).unwrap_or(false);
+        if let (Some(parts), true) = (&a.parts, all_parts_allowed) {
             if let Some(mut p2) = self.rebuild(i, &st.enc[i]) {
                 let mut all = vec![];
                 for part in parts {
